@@ -6,18 +6,9 @@
 From Coq Require Import String.
 From Coq Require Import List Ascii ZArith Bool Lia Permutation.
 From CGV Require Import Base.PyBase Base.PyVal Gen.ResolveGen Resolve.Bonding Resolve.BondingDefs
-     Resolve.BondingSpec Resolve.BondingProofs.
+     Resolve.BondingSpec Resolve.BondingProofs Resolve.BondingCheck Resolve.CutCheck.
 Import ListNotations.
 Open Scope Z_scope.
-
-Definition cutpair := (Z * pystr * Z * pystr)%type.   (* atom, descriptor | atom, descriptor *)
-Definition cp_d (c : cutpair) : pystr := snd (fst (fst c)).
-Definition cp_t (c : cutpair) : pystr := snd c.
-Definition cp_u (c : cutpair) : Z := fst (fst (fst c)).
-Definition cp_v (c : cutpair) : Z := snd (fst c).
-
-Fixpoint total_cnt (d : pystr) (t : tbl) : nat :=
-  match t with [] => 0%nat | (_, ds) :: r => (cnt d ds + total_cnt d r)%nat end.
 
 Record dedicated (legacy : bool) (sr tg : tbl) (L : list cutpair) : Prop := {
   ded_src : forall c, In c L -> In (cp_d c) (tlookup (cp_u c) sr) /\ total_cnt (cp_d c) sr = 1%nat;
@@ -109,8 +100,6 @@ Proof.
     assert (cnt d xs = 0)%nat by lia. lia.
 Qed.
 
-Definition cp_eqb (c c' : cutpair) : bool :=
-  Z.eqb (cp_u c) (cp_u c') && str_eqb (cp_d c) (cp_d c') && Z.eqb (cp_v c) (cp_v c') && str_eqb (cp_t c) (cp_t c').
 Definition bond_cp (b : bond) : cutpair := (b_u b, b_d1 b, b_v b, b_d2 b).
 
 Lemma nodup_map_remove {A B} (f : A -> B) (l1 l2 : list A) x :
@@ -220,3 +209,42 @@ Theorem unique_labels_forced legacy arom : forall L a b s acc s' acc',
   exists new, acc' = acc ++ new /\ Permutation (map bond_cp new) L /\
               Forall (fun bd => b_src bd = a /\ b_tgt bd = b) new.
 Proof. intros L. intros. eapply unique_labels_forced_gen; eauto. Qed.
+
+(** the executable test of the hypothesis is sound *)
+Lemma str_in_In x l : str_in x l = true -> In x l.
+Proof.
+  unfold str_in. rewrite existsb_exists. intros [y [H1 H2]]. apply str_eqb_eq in H2. now subst.
+Qed.
+Lemma In_str_in x l : In x l -> str_in x l = true.
+Proof. intros H. unfold str_in. rewrite existsb_exists. exists x. split; [assumption|apply str_eqb_refl]. Qed.
+Lemma nodup_strs_sound l : nodup_strs l = true -> NoDup l.
+Proof.
+  induction l as [|x r IH]; cbn; [constructor|]. intros H. apply andb_true_iff in H as [H1 H2].
+  constructor; [|auto]. intros Hin. apply In_str_in in Hin. rewrite Hin in H1. discriminate.
+Qed.
+Theorem dedicated_b_sound legacy sr tg L : dedicated_b legacy sr tg L = true -> dedicated legacy sr tg L.
+Proof.
+  unfold dedicated_b. intros H.
+  repeat (apply andb_true_iff in H as [H ?]).
+  rewrite forallb_forall in *.
+  constructor.
+  - intros c Hc. specialize (H c Hc). apply andb_true_iff in H as [Ha Hb].
+    split; [now apply str_in_In|now apply Nat.eqb_eq].
+  - intros c Hc. match goal with X : forall x, In x L -> str_in (cp_t x) _ && _ = true |- _ => specialize (X c Hc); apply andb_true_iff in X as [Ha Hb] end.
+    split; [now apply str_in_In|now apply Nat.eqb_eq].
+  - intros c Hc. match goal with X : forall x, In x L -> compat_str _ _ _ = true |- _ => exact (X c Hc) end.
+  - intros u ds v ts d t Hu Hv Hd Ht Hcmp.
+    match goal with X : forall x, In x sr -> _ = true |- _ => specialize (X (u, ds) Hu) end.
+    rewrite forallb_forall in *.
+    match goal with X : forall x, In x tg -> _ = true |- _ => specialize (X (v, ts) Hv) end.
+    rewrite forallb_forall in *. cbn [snd] in *.
+    match goal with X : forall x, In x ds -> _ = true |- _ => specialize (X d Hd) end.
+    rewrite forallb_forall in *.
+    match goal with X : forall x, In x ts -> _ = true |- _ => specialize (X t Ht) end.
+    rewrite Hcmp in *. cbn in *.
+    match goal with X : existsb _ L = true |- _ => apply existsb_exists in X as [c [Hc Hb]] end.
+    apply andb_true_iff in Hb as [Hb1 Hb2]. apply str_eqb_eq in Hb1. apply str_eqb_eq in Hb2.
+    exists c. tauto.
+  - now apply nodup_strs_sound.
+  - now apply nodup_strs_sound.
+Qed.
